@@ -189,3 +189,72 @@ Corollary breduce_exact (req:text -> bool) t :
 Proof.
   rewrite breduce_is_reduce. destruct (reduce_exact req (lines t)) as [log R]. rewrite R. exists log. reflexivity.
 Qed.
+
+(* ---------- the same for LineMarkersPass: the byte-level loop against the instance-level loop on the marker list ---- *)
+Lemma filter_not_drop_selected sel : forall ls k i e,
+  filter (fun l => negb (sel l)) (drop_selected sel ls k i e) = filter (fun l => negb (sel l)) ls.
+Proof.
+  induction ls as [|l r IH]; intros k i e; [reflexivity|].
+  cbn [drop_selected filter]. destruct (sel l) eqn:SL; cbn [negb].
+  - destruct ((i <=? k) && (k <? e)); [apply IH|]. cbn [filter]. rewrite SL. cbn [negb]. apply IH.
+  - cbn [filter]. rewrite SL. cbn [negb]. f_equal. apply IH.
+Qed.
+
+Section MBR.
+Variable ismark : text -> bool.
+Variable test : nat -> list text -> bst -> bool.
+Definition marks (t:text) : list text := filter ismark (lines t).
+Definition others (t:text) : list text := filter (fun l => negb (ismark l)) (lines t).
+Fixpoint mbrun (fuel k:nat) (t:text) (s:bst) (log:list entry) : option (text * list entry) :=
+  match fuel with
+  | 0 => None
+  | S f =>
+    if test k (marks t) s then
+      let t' := markers_transform ismark t (index s) (end_ s) in
+      let log' := log ++ [(index s, end_ s, instances s, true)] in
+      match advance_on_success s (length (marks t')) with
+      | None => Some (t', log')
+      | Some s' => mbrun f (S k) t' s' log'
+      end
+    else
+      let log' := log ++ [(index s, end_ s, instances s, false)] in
+      match advance s with
+      | None => Some (t, log')
+      | Some s' => mbrun f (S k) t s' log'
+      end
+  end.
+
+(* same log, the markers left are those of the instance-level loop, and no other line is touched *)
+Definition mb_agree (t0:text) (b:option (text * list entry)) (r:@res text) : Prop :=
+  match b, r with
+  | Some (t', lg), Done l lg' => marks t' = l /\ lg = lg' /\ others t' = others t0
+  | None, Fuel => True
+  | _, _ => False
+  end.
+
+Theorem mbrun_is_run n : forall fuel k t s log,
+  WFb (marks t) s n -> mb_agree t (mbrun fuel k t s log) (run test fuel k (marks t) s log).
+Proof.
+  induction fuel as [|fuel IH]; intros k t s log W; [exact I|].
+  cbn [mbrun run].
+  assert (He : index s <= end_ s).
+  { destruct W as (Wi & Wx & Wc & _). unfold end_. lia. }
+  assert (M1 : marks (markers_transform ismark t (index s) (end_ s)) = cut (marks t) (index s) (end_ s))
+    by (apply markers_candidate_is_cut; exact He).
+  assert (O1 : others (markers_transform ismark t (index s) (end_ s)) = others t).
+  { unfold others. rewrite markers_candidate_lines. apply filter_not_drop_selected. }
+  destruct (test k (marks t) s).
+  - rewrite M1.
+    destruct (advance_on_success s (length (cut (marks t) (index s) (end_ s)))) as [s'|] eqn:A.
+    + destruct (aos_WF (marks t) s n s' W A) as [W' _]. rewrite <- M1 in W'.
+      specialize (IH (S k) _ s' (log ++ [(index s, end_ s, instances s, true)]) W'). rewrite M1 in IH.
+      unfold mb_agree in *.
+      destruct (mbrun fuel (S k) (markers_transform ismark t (index s) (end_ s)) s' _) as [[t' lg]|];
+        destruct (run test fuel (S k) (cut (marks t) (index s) (end_ s)) s' _) as [l lg'|]; try exact IH.
+      destruct IH as (I1 & I2 & I3). repeat split; [exact I1|exact I2|rewrite I3; exact O1].
+    + cbn [mb_agree]. repeat split; [exact M1|exact O1].
+  - destruct (advance s) as [s'|] eqn:A.
+    + destruct (advance_WF (marks t) s n s' W A) as [W' _]. apply (IH (S k) t s' _ W').
+    + cbn [mb_agree]. repeat split.
+Qed.
+End MBR.
